@@ -68,8 +68,17 @@ def gen_plan(seed, tier="quick", variant=None):
                     "gap": rng.choice([0, 0, 0, 1, 3, 50]), "size": rng.choice([0, 5, 30, 120, 500, 1500 if thorough else 200]),
                     "nullkey": rng.random() < 0.3, "nullval": rng.random() < 0.1, "nested": kind == "wrapper" and rng.random() < 0.15,
                     "holes": kind == "wrapper" and rng.random() < 0.3})
+    big = rng.random() < (0.1 if thorough else 0.03) and variant in ("faulty", "retry", "clean", "recovery")
     buf = rng.choice([64, 128, 256, 1024, 4096, 65536])
+    if big:
+        # growth across 2^20: sixteen-fold up to 1 MiB, then doubling
+        buf = rng.choice([2 ** 16, 2 ** 19, 2 ** 20])
+        log.append({"kind": "plain", "magic": rng.choice([0, 1]), "n": 1, "gap": 0, "size": rng.choice([2 ** 20 + 5, 3 * 2 ** 20, 2 ** 22 + 1]),
+                    "nullkey": False, "nullval": False, "nested": False, "holes": False})
+        log.append({"kind": "plain", "magic": 0, "n": 2, "gap": 0, "size": 10, "nullkey": False, "nullval": False, "nested": False, "holes": False})
     maxbuf = rng.choice([None, None, buf, buf * 4, buf * 16, 2 ** 21])
+    if big:
+        maxbuf = rng.choice([None, 2 ** 21, 2 ** 22, 2 ** 23, 2 ** 24])
     if maxbuf is not None and maxbuf < buf:
         maxbuf = buf
     timeout_ms = rng.choice([400, 1000, 5000])
@@ -100,6 +109,9 @@ def gen_plan(seed, tier="quick", variant=None):
         "consumer": cons, "base": base, "start": start, "start_rel": start_rel, "connect_timeout": rng.choice([0.5, 2.0]),
         "precommit": rng.choice([None, None, rng.randint(0, 10)]) if group else None,
     }
+    if big:
+        cfg["seg"] = ["coalesce", "coalesce"]
+        cfg["big"] = True
     if variant in ("recovery", "clean") or (variant == "retry" and rng.random() < 0.5):
         cfg["seg"] = [rng.choice(["coalesce", "writes", "random"]), rng.choice(["coalesce", "writes", "random"])]
         if not instant:
